@@ -57,6 +57,14 @@ Definition np_axes (nd : Z) (l : list Z) : res (list Z) := mapM (np_normalize_ax
 Definition spec_transpose (sh : shape) (f : idx -> Z) (perm : list Z) : res (shape * (idx -> Z)) :=
   if is_perm (slen sh) perm then Ok (np_transpose_shape sh perm, np_transpose perm f) else Raise ValueError.
 
+(* np.pad validates the pad_width argument itself (before broadcasting it to the axes) *)
+Definition padw_neg (pw : padw) : bool :=
+  match pw with
+  | PW0 p => p <? 0
+  | PW1 l => existsb (fun p => p <? 0) l
+  | PW2 rows => existsb (existsb (fun p => p <? 0)) rows
+  end.
+
 Definition zsum (l : list Z) : Z := fold_right Z.add 0 l.
 
 Definition run_spec (sh : shape) (fill : Z) (f : idx -> Z) (o : c08op) : res (shape * (idx -> Z)) :=
@@ -101,7 +109,7 @@ Definition run_spec (sh : shape) (fill : Z) (f : idx -> Z) (o : c08op) : res (sh
     if negb ((match cv with Some c => c | None => 0 end) =? fill) then Raise ValueError
     else
       prs <- pad_pairs (length sh) pw ;;
-      if existsb (fun p => (fst p <? 0) || (snd p <? 0)) prs then Raise ValueError
+      if padw_neg pw then Raise ValueError
       else Ok (np_pad_shape sh prs, np_pad sh prs fill f)
   | OBroadcast t =>
     if np_broadcast_ok sh t then Ok (t, np_broadcast_to sh t f) else Raise ValueError
@@ -155,7 +163,7 @@ Definition dom_clause (x : coo Z) (o : c08op) : Z :=
   | OBroadcast t => if (Z.of_nat (length t) <? nd) then 17 else 0
   | OPad pw cv =>
     match pad_pairs (length sh) pw with
-    | Ok prs => if existsb (fun p => (fst p <? 0) || (snd p <? 0)) prs then 18 else 0
+    | Ok prs => if padw_neg pw then 18 else 0
     | _ => 0
     end
   | _ => 0
